@@ -43,7 +43,7 @@ fn candidates(keys: &Keys) -> (Vec<RawSet>, Vec<Option<SetSpec>>) {
         sp(&[(1, 3), (3, 4)], 5, 10),         // I1
         sp(&[(0, 1)], 1, 1),                  // A
         sp(&[(0, 1), (1, 2)], 2, 2),          // B
-        sp(&[(0, 1), (1, 1), (2, 1), (3, 1), (4, 1), (5, 1)], 6, 3),  // C: six signers, threshold == total (boundary, well-formed)
+        sp(&(0..33).map(|i| (i, 1u128)).collect::<Vec<_>>(), 33, 3),  // C: 33 signers, threshold == total (boundary, well-formed)
     ];
     let mut cands: Vec<RawSet> = good.iter().map(|s| s.raw(keys)).collect();
     let mut specs: Vec<Option<SetSpec>> = good.into_iter().map(Some).collect();
@@ -163,7 +163,7 @@ impl Scenario for C03 {
         let owner = env.register(Principal, ());
         let operator = env.register(Principal, ());
         let factory = env.register(Factory, ());
-        let keys = Keys::new(6);
+        let keys = Keys::new(33);
         let (cands, specs) = candidates(&keys);
         // native seat at the address the factory will deploy to
         let salt = [0x5a; 32];
@@ -418,7 +418,7 @@ fn main() {
         let mut o = Opts::new(tier, if thorough { 9 } else { 7 });
         o.min_depth = 3;
         o.xcheck = tier == "thorough";
-        o.rule = "retention 1 (thorough: also 0 and 2); construction through a factory with initial lists [], [I0], [I0,I1], [I0,I0], [I0,I1,I0], [I0,I1,A], [A,A,B], [I0,malformed_i], [malformed_i] (10 malformed shapes: empty, adjacent duplicate key, descending keys, all-zero key, zero weight, weights summing past u128 at the last / first / a middle signer with the wrapped total reaching the threshold, threshold 0, threshold total+1); then all rotation sequences over candidates {A,B,C(six signers, threshold==total),I0,I1, 10 malformed} x proof source {latest, older retained, outdated, never-installed, latest-signing-another-candidate, latest-signing-under-the-approval-command-tag, latest with one entry listed twice} x bypass {no, operator, no auth, owner auth}; after every new state epoch(), signers_hash_by_epoch(e) for all e in 0..=epoch+1 and epoch_by_signers_hash(h) for all 15 candidate hashes are compared with the installed list".into();
+        o.rule = "retention 1 (thorough: also 0 and 2); construction through a factory with initial lists [], [I0], [I0,I1], [I0,I0], [I0,I1,I0], [I0,I1,A], [A,A,B], [I0,malformed_i], [malformed_i] (10 malformed shapes: empty, adjacent duplicate key, descending keys, all-zero key, zero weight, weights summing past u128 at the last / first / a middle signer with the wrapped total reaching the threshold, threshold 0, threshold total+1); then all rotation sequences over candidates {A,B,C(33 signers, threshold==total),I0,I1, 10 malformed} x proof source {latest, older retained, outdated, never-installed, latest-signing-another-candidate, latest-signing-under-the-approval-command-tag, latest with one entry listed twice} x bypass {no, operator, no auth, owner auth}; after every new state epoch(), signers_hash_by_epoch(e) for all e in 0..=epoch+1 and epoch_by_signers_hash(h) for all 15 candidate hashes are compared with the installed list".into();
         (s, o)
     });
 }
